@@ -325,6 +325,8 @@ func ApproveQuitSideChain(native *native.NativeService) ([]byte, error) {
 			ContractAddress: utils.NodeManagerContractAddress,
 			States:          []interface{}{"ApproveQuitSideChain", params.Chainid},
 		})
+	// a pending update request refers to the registration that ends here
+	native.GetCacheDB().Delete(utils.ConcatKey(utils.SideChainManagerContractAddress, []byte(UPDATE_SIDE_CHAIN_REQUEST), chainidByte))
 	return utils.BYTE_TRUE, nil
 }
 
